@@ -68,8 +68,8 @@ func plans(prop string, thorough bool, seed int64) []plan {
 					hp += p
 				}
 			}
-			if 3*hp < 2*tot {
-				continue // premise of C06: honest participants hold a strong quorum
+			if 3*hp < 2*tot || len(sc.OddSupp) > 0 {
+				continue // premise of C06: honest participants (that can hear each other) hold a strong quorum
 			}
 			if sc.Name == "dust4-byz" || sc.Name == "dust4-honest" {
 				// scaled powers decide; the dust member holds no scaled power, the others are a strong quorum.
